@@ -334,6 +334,14 @@ impl C05 {
         }) {
             return fw::pass(true, obs_hash);
         }
+        // a reading under the SI prefixes of 2022 (ronna, quetta, ronto, quecto) is a valid reading too:
+        // the tool does not know them today, a build that learns them keeps the statement
+        if units::readings_2022(w).iter().any(|r| {
+            let m = units::reading_meaning(r);
+            m.scale == got.scale && m.dim == got.dim
+        }) {
+            return fw::pass(true, obs_hash);
+        }
         // Known root cause class: the generated logos lexer, after failing to
         // complete a longer token, returns a shorter one but resumes further
         // right, silently dropping characters. Recognised mechanically: the
